@@ -40,6 +40,7 @@ type evo struct {
 	first int32 // lowest height the wallet stores a hash for
 	log   []string
 	stale []chain.BlockDisconnected
+	window uint32 // recovery window the wallet is opened with (the daemon always uses 250)
 	stats map[string]int
 }
 
@@ -234,7 +235,7 @@ func (e *evo) markKnownOnChain() {
 }
 
 func (e *evo) open() error {
-	err := e.h.Open(0, false)
+	err := e.h.Open(e.window, false)
 	if err != nil {
 		return err
 	}
@@ -258,7 +259,7 @@ func runEvolution(r *evid.Run, dir string, cs int64) {
 		return
 	}
 	defer h.Close()
-	e := &evo{r: r, rg: rg, cs: cs, h: h, ch: ch, pays: map[chainhash.Hash]*pay{}, stats: map[string]int{}}
+	e := &evo{r: r, rg: rg, cs: cs, h: h, ch: ch, pays: map[chainhash.Hash]*pay{}, stats: map[string]int{}, window: []uint32{0, 3, 250}[rg.Intn(3)]}
 	defer func() {
 		for k, v := range e.stats {
 			r.Hit(k, v)
@@ -520,7 +521,7 @@ func runEvolution(r *evid.Run, dir string, cs int64) {
 
 func main() {
 	r := evid.New(P, "exploration")
-	r.Rule("generated chain evolutions fed to a complete wallet.Wallet through an in-memory chain.Interface (both delivery styles: btcd RelevantTx+BlockConnected, bitcoind/neutrino FilteredBlockConnected+BlockConnected): extensions by 1..5 blocks, reorgs of depth 1..12 within the stored window (new branch equal or longer), wallet payments placed in the losing branch, re-included at other heights of the winning branch or left unconfirmed, unconfirmed payments, repeated BlockConnected(tip), repeated / stale / unknown-hash BlockDisconnected (also re-delivered half-way through a reorg: after all disconnects, or between two instalments of the new branch, where the synced-to block must already be a best-chain block), restarts with the chain unchanged / extended / reorganised while the wallet was stopped, a block connected while the startup rescan is still running, and a reorg of payment-free tip blocks (depth 1..3, longer new branch) delivered while the startup rescan is still running. After EVERY step (deterministic two-no-op barrier) the backend's best chain is the oracle: SyncedTo = tip (height and hash), BlockHash(h) = best-chain hash for every stored height up to the tip, every transaction reported with a block names a best-chain block that contains it, every best-chain payment is reported confirmed, CalculateBalance(1) and (0) equal the backend ledger. Non-trivial = evolution with at least one reorg; distinct = distinct step sequences.")
+	r.Rule("(wallets are opened with a recovery window of 0, 3 or 250 -- the daemon always uses 250 -- chosen per evolution) generated chain evolutions fed to a complete wallet.Wallet through an in-memory chain.Interface (both delivery styles: btcd RelevantTx+BlockConnected, bitcoind/neutrino FilteredBlockConnected+BlockConnected): extensions by 1..5 blocks, reorgs of depth 1..12 within the stored window (new branch equal or longer), wallet payments placed in the losing branch, re-included at other heights of the winning branch or left unconfirmed, unconfirmed payments, repeated BlockConnected(tip), repeated / stale / unknown-hash BlockDisconnected (also re-delivered half-way through a reorg: after all disconnects, or between two instalments of the new branch, where the synced-to block must already be a best-chain block), restarts with the chain unchanged / extended / reorganised while the wallet was stopped, a block connected while the startup rescan is still running, and a reorg of payment-free tip blocks (depth 1..3, longer new branch) delivered while the startup rescan is still running. After EVERY step (deterministic two-no-op barrier) the backend's best chain is the oracle: SyncedTo = tip (height and hash), BlockHash(h) = best-chain hash for every stored height up to the tip, every transaction reported with a block names a best-chain block that contains it, every best-chain payment is reported confirmed, CalculateBalance(1) and (0) equal the backend ledger. Non-trivial = evolution with at least one reorg; distinct = distinct step sequences.")
 	r.Trusted("fakechain (harness) as the definition of the best chain")
 	r.Assume("reorgs never reach below the first block the wallet stored (outside 'within the window')", "hashes above the tip are not inspected", "assertions start after RescanFinished (the wallet ignores disconnects before that by design)", "repeated BlockConnected is only sent for the current tip")
 	dir, _ := os.MkdirTemp("", "c15")
